@@ -426,6 +426,8 @@ func (x *c03host) Connect(si *network.ServerIdentity) (network.Conn, error) {
 type c03entry struct {
 	kind string // ok | err | disp | close
 	what string
+	// for "ok": what Receive returned; for "disp": what the processor was handed
+	env *network.Envelope
 	// the delivered message itself: it is kept, as a receiver may keep it, and only turned back
 	// into bytes after everything on the connection has been received
 	val interface{}
@@ -445,6 +447,12 @@ func (l *c03log) add(kind, what string) {
 func (l *c03log) addVal(v interface{}) {
 	l.mu.Lock()
 	l.l = append(l.l, c03entry{kind: "disp", val: v})
+	l.mu.Unlock()
+}
+
+func (l *c03log) addEnv(kind string, e *network.Envelope) {
+	l.mu.Lock()
+	l.l = append(l.l, c03entry{kind: kind, val: e.Msg, env: e})
 	l.mu.Unlock()
 }
 
@@ -477,7 +485,7 @@ func (r *c03rec) Receive() (*network.Envelope, error) {
 	if err != nil {
 		r.log.add("err", c03class(err))
 	} else {
-		r.log.add("ok", "")
+		r.log.addEnv("ok", env)
 	}
 	return env, err
 }
@@ -736,6 +744,10 @@ type c03state struct {
 	tags    map[string]bool
 	unacc   int
 	stopped bool
+	// the types the pipe router has a processor for (nil = all of c03types)
+	procs map[network.MessageTypeID]bool
+	// identities of the harness types registered by `reg` operations of this case
+	registered map[int]bool
 }
 
 func (st *c03state) tag(s string) { st.tags[s] = true }
@@ -767,6 +779,7 @@ func (st *c03state) close() {
 func (st *c03state) cfg(m, reg, bad string) string {
 	// tear down live connections: the limit is a package variable read by their receive loops
 	st.close()
+	st.procs = nil
 	if m == "gen" {
 		network.MaxPacketSize = st.defMax
 	} else {
@@ -877,6 +890,16 @@ func (st *c03state) raw(frames [][]byte, tail []byte, chunks []int) string {
 	return c03joinHex(got) + " end:" + end
 }
 
+// hasProc: does the pipe router have a processor for the type of this marshalled buffer?
+func (st *c03state) hasProc(f []byte) bool {
+	if st.procs == nil || len(f) < 16 {
+		return true
+	}
+	var t network.MessageTypeID
+	copy(t[:], f[:16])
+	return st.procs[t]
+}
+
 func c03bucket(n int) string {
 	switch {
 	case n == 0:
@@ -900,8 +923,11 @@ func (st *c03state) loopRouter() error {
 	st.router.UnauthOk, st.router.Quiet = true, true
 	st.log = &c03log{}
 	for _, t := range c03types {
+		if st.procs != nil && !st.procs[t] {
+			continue
+		}
 		st.router.RegisterProcessorFunc(t, func(e *network.Envelope) error {
-			st.log.addVal(e.Msg)
+			st.log.addEnv("disp", e)
 			return nil
 		})
 	}
@@ -968,7 +994,7 @@ func (st *c03state) loop(frames [][]byte, tail []byte, chunks []int, stall bool,
 		}
 	}
 	// canonical events; the first Receive is the identity exchange
-	var ev, dels []string
+	var ev, dels, nps []string
 	end := ""
 	if len(l) > 0 && l[0].kind == "ok" {
 		l = l[1:]
@@ -986,7 +1012,19 @@ func (st *c03state) loop(frames [][]byte, tail []byte, chunks []int, stall bool,
 			if next == "disp" {
 				ev = append(ev, "d:"+l[i+1].what)
 				dels = append(dels, l[i+1].what)
+				// what the processor is handed: the type id of the value, the peer, the frame's size
+				if d := l[i+1].env; d != nil {
+					hx, _ := hex.DecodeString(l[i+1].what)
+					if d.MsgType != network.MessageType(d.Msg) || d.ServerIdentity == nil || !d.ServerIdentity.Public.Equal(st.peer.Public) ||
+						(len(hx) >= 16 && (!bytes.Equal(hx[:16], d.MsgType[:]) || int(d.Size) != len(hx))) {
+						st.cs.Fail("envelope-fields", fmt.Sprintf("the processor was handed an envelope with MsgType %x, Size %d, ServerIdentity %v for the message %s from the peer %v", d.MsgType[:], d.Size, d.ServerIdentity, l[i+1].what, st.peer))
+					}
+				}
 				i++
+			} else if e.env != nil && st.procs != nil && !st.procs[e.env.MsgType] {
+				// no processor for this type: Dispatch answers with an error, the message is dropped
+				ev = append(ev, "np:"+c03hexOf(e.val))
+				nps = append(nps, c03hexOf(e.val))
 			} else {
 				ev = append(ev, "lost")
 				st.cs.Fail("received-not-dispatched", "a message came out of Receive and was not dispatched")
@@ -1016,15 +1054,20 @@ func (st *c03state) loop(frames [][]byte, tail []byte, chunks []int, stall bool,
 	// the property's own oracle: every decodable frame within the limit is delivered equal, in
 	// order, nothing else before them; an over-limit frame ends the connection
 	k := st.firstOversize(frames)
-	var want []string
+	var want, wantNp []string
 	for _, f := range frames[:k] {
 		if v, cl := c03unmarshal(f); cl == "ok" {
-			if b, err := network.Marshal(v); err == nil && bytes.Equal(b, f) {
+			if !st.hasProc(f) {
+				wantNp = append(wantNp, h.Hex(f))
+			} else if b, err := network.Marshal(v); err == nil && bytes.Equal(b, f) {
 				want = append(want, h.Hex(f))
 			} else {
 				want = append(want, "noncanonical")
 			}
 		}
+	}
+	if !stall && k == len(frames) && len(tail) == 0 && strings.Join(nps, ",") != strings.Join(wantNp, ",") {
+		st.cs.Fail("delivery", fmt.Sprintf("frames of types without a processor: %v, reported as such: %v", wantNp, nps))
 	}
 	if stall {
 		// what went out before the stall is all the receiver may ever use
@@ -1051,6 +1094,9 @@ func (st *c03state) loop(frames [][]byte, tail []byte, chunks []int, stall bool,
 		want = nil
 		for _, f := range in {
 			if v, cl := c03unmarshal(f); cl == "ok" {
+				if !st.hasProc(f) {
+					continue
+				}
 				if b, err := network.Marshal(v); err == nil && bytes.Equal(b, f) {
 					want = append(want, h.Hex(f))
 				} else {
@@ -1096,7 +1142,7 @@ func (st *c03state) loop(frames [][]byte, tail []byte, chunks []int, stall bool,
 	if stall {
 		st.tag(fmt.Sprintf("loop-stall:%s:d%s:x%s", end, c03bucket(len(dels)), c03bucket(refused)))
 	} else {
-		st.tag(fmt.Sprintf("loop:%s:d%s:x%s", end, c03bucket(len(dels)), c03bucket(refused)))
+		st.tag(fmt.Sprintf("loop:%s:d%s:x%s:np%s", end, c03bucket(len(dels)), c03bucket(refused), c03bucket(len(nps))))
 	}
 	if len(ev) == 0 {
 		return "-"
@@ -1134,6 +1180,14 @@ func (st *c03state) send(tr string, bufs [][]byte) string {
 	stopAt := -1 // first message the property does not promise to deliver
 	over := false
 	for i, b := range bufs {
+		if len(b) >= 16 && bytes.Equal(b[:16], c03unencType[:]) {
+			// a registered type whose values the protobuf encoder refuses
+			vals = append(vals, &c03Unenc{C: make(chan int)})
+			if stopAt < 0 {
+				stopAt = i
+			}
+			continue
+		}
 		v, cl := c03unmarshal(b)
 		switch cl {
 		case "ok":
@@ -1173,8 +1227,13 @@ func (st *c03state) send(tr string, bufs [][]byte) string {
 	res := "ok"
 	if err != nil {
 		res = "err:other"
-		if strings.Contains(err.Error(), "not registered") {
+		switch {
+		case strings.Contains(err.Error(), "not registered"):
 			res = "err:marshal"
+		case strings.Contains(err.Error(), "encoding:"):
+			res = "err:encode"
+		case strings.Contains(err.Error(), "at least one message"):
+			res = "err:empty"
 		}
 	}
 	closed := false
@@ -1239,7 +1298,7 @@ wait:
 		}
 		st.cs.Fail(sig, fmt.Sprintf("Send returned %q; promised deliveries %v, got %v", res, exp, got))
 	}
-	if stopAt < 0 && res != "ok" {
+	if stopAt < 0 && res != "ok" && len(bufs) > 0 {
 		st.cs.Fail("send-error", fmt.Sprintf("Send of valid messages returned %v", err))
 	}
 	st.tag(fmt.Sprintf("send-%s:%s:d%s:closed=%v", parts[0], res, c03bucket(len(got)), closed))
